@@ -9,16 +9,16 @@ std::vector<CheckDef>& check_table()
 		  "seeded configuration + sync history to a clean synced state, then a seeded damage set with <= N damaged blocks in every stripe (whole devices: any <= N of data disks and parity levels; "
 		  "or per-stripe patterns: files deleted/truncated/extended, blocks flipped with the stamp restored, parity blocks damaged, links/dirs removed, content copies lost), then fix + check. "
 		  "Non-trivial = at least one block of a used stripe was damaged; distinct = distinct (config, op sequence) hashes" },
-		{ "C07", "fault_enumeration", { { "crash", 64, 2500 } },
+		{ "C07", "fault_enumeration", { { "crash", 64, 800 } },
 		  "per scenario (seeded array + pending changes + sync variant or damaged array + fix) the command runs once fault-free to count its M state-changing system calls; then the pre-state is restored and the "
 		  "same schedule replayed with the process killed before / after / in the middle (torn write) of call k, and with SIGINT/SIGTERM raised at I/O call n. quick: every k inside the content save-verify-rename and parity "
 		  "resize windows plus a stride elsewhere; thorough: every k. After each interruption: data unchanged, content copies complete, independent parity oracle, a command loads the state, sync again + check + diff, and for "
 		  "additions-only scenarios recovery of previously synced files after losing a data disk. A case is non-trivial when the kill landed between the first parity write and the last content rename (or the signal was delivered)" },
-		{ "C04", "fault_enumeration", { { "silent", 500, 12000 } },
+		{ "C04", "fault_enumeration", { { "silent", 500, 3000 } },
 		  "per seeded synced array the set of corruption targets (every block of every file incl. the last partial one, every parity block of every level of every used stripe) is enumerated; each target is damaged with a shape "
 		  "from {1 bit, 1 byte, whole block, zeroing} (stamp restored), alone or 2-3 combined, and check -a / check / scrub -p full / scrub -p 100 must report exactly the right tags, fail, and (scrub) mark exactly the affected stripes bad "
 		  "(decoded content + status -G); an undamaged control run per command must stay silent. quick samples 14 targets per array, thorough takes all targets x all shapes. Non-trivial = a case with at least one damaged block" },
-		{ "C08", "fault_enumeration", { { "ioerr", 300, 8000 } },
+		{ "C08", "fault_enumeration", { { "ioerr", 300, 2500 } },
 		  "per scenario (pending changes + sync, or synced array + scrub -p full) the logical I/O targets are read off a fault-free trace: every (data file, block) read and every (parity level, position) read or written; each target fails once "
 		  "with EIO (ENOSPC for a quarter of the parity writes), alone or in pairs, under io-cache depths {1,3,5,17,128} and seeded schedules. Judged: failing exit, diagnostic, summary:error_io, the hit stripe is not (synced and not bad) unless the "
 		  "independent parity oracle shows its parity right, no other stripe gains false protection, the other stripes are processed, and fix -e + sync + scrub -p bad end clean. quick samples 8 targets x 2 depths per scenario (always incl. the first and the last two), thorough takes all x 5 depths. Non-trivial = the fault fired" },
